@@ -238,6 +238,9 @@ fn main() {
         } else {
             "?".to_string()
         };
+        if std::env::var("MCDRIVE_BT").is_ok() {
+            eprintln!("panic at {}: {}\n{}", at, msg, std::backtrace::Backtrace::force_capture());
+        }
         LAST_PANIC.with(|p| *p.borrow_mut() = Some((at, msg)));
     }));
     let stdin = std::io::stdin();
